@@ -1,4 +1,4 @@
-import QipVerif.Lemmas.RenderPrefix
+import QipVerif.Lemmas.RenderLinks3
 /-!
 # C20 — text drawings of circuits are well-formed pictures of the circuit
 
@@ -130,14 +130,6 @@ theorem draw_succeeds (sty : Style) (c : Circ) (hc : circOk sty c = true) : ∃ 
   obtain ⟨st1, h1⟩ := steps_succeeds (sty := sty) (C := c.C) st0 hc.2 (styleOk_N hc.1)
   exact ⟨printRows c.N c.C (finalPad sty c.N st1), by simp only [render, layoutSt, h0, h1]⟩
 
-/-- a non-trivial covered circuit: TOFFOLI with controls on both sides, a SWAP, a measurement, a
-two-target box with two controls, `align_layer=True`, `gate_pad=1.2`, custom wire labels -/
-def exCirc : Circ := { N := 4, C := 2, ops :=
-  [.gate ['T','O','F','F','O','L','I'] none [1] (some [0, 3]), .gate ['S','W','A','P'] none [0, 2] none, .meas [2] 1,
-   .gate ['C','U'] (some ['x',' ','y']) [2, 3] (some [0, 1])] }
-def exStyle : Style :=
-  { padNum := 6, padDen := 5, align := true, labels := some [['a'], ['b','b'], ['q','0'], ['q','1'], [], ['q','3']] }
-
 example : circOk exStyle exCirc = true ∧ rowWidths exStyle exCirc = some (List.replicate 18 53) := by
   decide +kernel
 
@@ -181,5 +173,292 @@ theorem equal_width_refuted :
 example : opOk 4 (.gate ['F','R','E','D','K','I','N'] none [1, 3] (some [0])) = false ∧
     opValid 4 0 (.gate ['F','R','E','D','K','I','N'] none [1, 3] (some [0])) = true ∧
     contig [1, 3] = false ∧ opOk 4 (.gate ['F','R','E','D','K','I','N'] none [1, 2] (some [0])) = true := by decide
+
+/-! ## labels in order -/
+
+/-- **Labels in order.**  Reading the middle row of qubit wire `q` from left to right
+(`readLabels`: the contents of the boxes `┤…├`, without the `ceil(gate_pad)` blanks on both sides)
+gives, in circuit order, the labels of exactly the gates and measurements whose box is drawn on
+that wire (`opLabels`: a one-qubit gate / measurement on its target; any other boxed gate on its
+lowest target wire, plus a blank label where the box is closed on its highest target wire; a SWAP
+has no box).  For every circuit whose drawing succeeds — the gap class of the width defect
+included — provided labels and wire labels do not themselves contain the glyphs `┤`, `├`. -/
+theorem labels_in_order (sty : Style) (c : Circ) (rows : List Str) (h : render sty c = .ok rows)
+    (hl : ∀ ls, sty.labels = some ls → ∀ l ∈ ls, noGlyph l = true)
+    (ht : ∀ op ∈ c.ops, noGlyph (opText op) = true) (q : Nat) (hq : q < c.N) :
+    ∃ row, rows[3 * (c.N - 1 - q) + 1]? = some row ∧
+      readLabels sty.pad row = c.ops.flatMap fun op => opLabels op q := by
+  obtain ⟨st, hst, hrows⟩ := row_order sty c rows h
+  obtain ⟨w, hw, _, hmid, _⟩ := hrows (c.N - 1 - q) (by omega)
+  have hwq : wireAtRow c.N c.C (c.N - 1 - q) = q := by
+    unfold wireAtRow; rw [if_pos (by omega)]; omega
+  rw [hwq] at hw
+  exact ⟨w.mid, hmid, layoutSt_reads hst hl ht q w hw⟩
+
+example : ∃ rows, render exStyle exCirc = .ok rows ∧
+    (rows[10]?.map (readLabels exStyle.pad)) = some [] ∧
+    (rows[7]?.map (readLabels exStyle.pad)) = some [['T','O','F','F','O','L','I']] ∧
+    (rows[4]?.map (readLabels exStyle.pad)) = some [['M'], ['x',' ','y']] ∧
+    (rows[1]?.map (readLabels exStyle.pad)) = some [[' ', ' ', ' ']] ∧
+    (List.range 4).map (fun q => exCirc.ops.flatMap fun op => opLabels op q) =
+      [[], [['T','O','F','F','O','L','I']], [['M'], ['x',' ','y']], [[' ', ' ', ' ']]] := by
+  refine ⟨_, rfl, ?_⟩; decide +kernel
+
+/-! ## links reach the wires they connect
+
+`cell st k r x` is the character at column `x` of row `r` (0 top, 1 middle, 2 bottom) of wire `k`
+in the state `st` that `print_circuit` prints (`row_order` says where these rows are in the
+output).  In the picture the bottom row of wire `k` is directly above the top row of wire `k - 1`,
+so the cells named below form one unbroken vertical line in one column. -/
+
+/-- In a covered circuit a control of a boxed gate lies strictly above or strictly below the box. -/
+theorem control_outside (N : Nat) (name : Str) (lab : Option Str) (ts cs : List Nat)
+    (hop : opOk N (.gate name lab ts (some cs)) = true) (hswap : name ≠ swapName) (hnd : (ts ++ cs).Nodup)
+    (ctl : Nat) (hctl : ctl ∈ cs) : lmax ts < ctl ∨ ctl < lmin ts := by
+  simp only [opOk, Bool.and_eq_true, Bool.or_eq_true, Bool.not_eq_true', decide_eq_true_eq] at hop
+  have hnt : ctl ∉ ts := fun h => (List.nodup_append.mp hnd).2.2 ctl h ctl hctl rfl
+  have hcontig : contig ts = true := by
+    rcases hop.2 with ((h | h) | h) | h
+    · simp at h
+    · exact absurd h hswap
+    · cases cs with
+      | nil => cases hctl
+      | cons a l => simp [truthy] at h
+    · exact h
+  by_cases h1 : lmax ts < ctl
+  · exact Or.inl h1
+  · by_cases h2 : ctl < lmin ts
+    · exact Or.inr h2
+    · exact absurd (contig_mem hcontig (by omega) (by omega)) hnt
+
+/-- **Control links reach.**  For a boxed gate with controls anywhere in a covered circuit there
+is one column `col` such that for every control `ctl`: the control wire carries the node `█`;
+if `ctl` is above the box, the bottom row of `ctl`, all three rows of every wire between, and
+the mark `┴` on the box's top frame (top row of the highest target wire) are in column `col`,
+each wire between showing `│` (or the node `█` of another control); symmetrically (`┬` on the
+bottom row of the lowest target wire) if `ctl` is below the box. -/
+theorem links_reach_control (sty : Style) (c : Circ) (st : St) (hc : circOk sty c = true)
+    (h : layoutSt sty c = .ok st) (pre post : List Op) (name : Str) (lab : Option Str) (ts cs : List Nat)
+    (hops : c.ops = pre ++ .gate name lab ts (some cs) :: post) (hswap : name ≠ swapName)
+    (hnd : (ts ++ cs).Nodup) :
+    ∃ col, ∀ ctl ∈ cs,
+      (lmax ts < ctl →
+        cell st ctl 1 col = some '█' ∧ cell st ctl 2 col = some '│' ∧ cell st (lmax ts) 0 col = some '┴' ∧
+        ∀ w, lmax ts < w → w < ctl → cell st w 0 col = some '│' ∧ cell st w 2 col = some '│' ∧
+          (cell st w 1 col = some '│' ∨ cell st w 1 col = some '█')) ∧
+      (ctl < lmin ts →
+        cell st ctl 1 col = some '█' ∧ cell st ctl 0 col = some '│' ∧ cell st (lmin ts) 2 col = some '┬' ∧
+        ∀ w, ctl < w → w < lmin ts → cell st w 0 col = some '│' ∧ cell st w 2 col = some '│' ∧
+          (cell st w 1 col = some '│' ∨ cell st w 1 col = some '█')) := by
+  obtain ⟨xs, pl, hpl, hcells⟩ := piece_in_picture hc h hops
+  have hop : opOk c.N (.gate name lab ts (some cs)) = true := by
+    simp only [circOk, Bool.and_eq_true, List.all_eq_true] at hc
+    exact hc.2 _ (by rw [hops]; simp)
+  have hne : ts ≠ [] := by
+    simp only [opOk, Bool.and_eq_true] at hop
+    intro h'; simp [h'] at hop
+  by_cases hcs : cs = []
+  · exact ⟨0, fun ctl hctl => by rw [hcs] at hctl; cases hctl⟩
+  rw [plan_multi _ _ _ _ _ _ _ hswap hne hcs] at hpl
+  cases hpl
+  simp only [] at hcells
+  have hshape : ts.length = 1 ∨ lmin ts < lmax ts := by
+    have hl : 1 ≤ ts.length := by cases ts with | nil => exact absurd rfl hne | cons _ _ => simp
+    by_cases h1 : ts.length = 1
+    · exact Or.inl h1
+    · exact Or.inr (nodup_lmin_lt_lmax (List.nodup_append.mp hnd).1 (by omega))
+  have hmm : lmin ts ≤ lmax ts := lmin_le (lmax_mem hne)
+  obtain ⟨⟨gT, hgT, hgTtop⟩, ⟨gB, hgB, hgBbot⟩⟩ :=
+    updTargetMultiq_ends ts (drawMultiq sty.pad (gateText name lab) ts (some cs)) hne hshape
+  have htr : truthy (some cs) = true := by cases cs <;> simp_all [truthy]
+  obtain ⟨mT, mB⟩ := drawMultiq_marks sty.pad (gateText name lab) ts (some cs) htr
+  simp only [ctrlList, Option.getD_some] at mT mB
+  refine ⟨xs + (drawMultiq sty.pad (gateText name lab) ts (some cs)).top.length / 2, fun ctl hctl => ⟨?_, ?_⟩⟩
+  · -- control above the box
+    intro habove
+    have hcmax : ctl ≤ lmax cs := le_lmax hctl
+    have hgt : lmax cs > lmin ts := by omega
+    have hin : ∀ a, a ∈ updQbridge ts cs (pyRange (lmin ts) (lmax cs + 1))
+        (drawMultiq sty.pad (gateText name lab) ts (some cs)).top.length true →
+        a ∈ updTargetMultiq ts (pyRange (lmin ts) (lmax ts + 1)) (drawMultiq sty.pad (gateText name lab) ts (some cs)) ++
+          (if lmax cs > lmin ts then updQbridge ts cs (pyRange (lmin ts) (lmax cs + 1))
+            (drawMultiq sty.pad (gateText name lab) ts (some cs)).top.length true else []) ++
+          (if lmin cs < lmax ts then updQbridge ts cs (pyRange (lmin cs) (lmax ts + 1))
+            (drawMultiq sty.pad (gateText name lab) ts (some cs)).top.length false else []) := by
+      intro a ha
+      rw [if_pos hgt]
+      exact List.mem_append_left _ (List.mem_append_right _ ha)
+    have hnotT : ∀ w, lmax ts < w → w ∉ ts := fun w hw hmem => by have := le_lmax hmem; omega
+    have hhead : (pyRange (lmin ts) (lmax cs + 1)).head? = some (lmin ts) := pyRange_head? (by omega)
+    have hlast : (pyRange (lmin ts) (lmax cs + 1)).getLast? = some (lmax cs) := by
+      rw [pyRange_getLast? (by omega)]; rfl
+    obtain ⟨g, hg, gm, _, gb⟩ := @updQbridge_mem ts cs (pyRange (lmin ts) (lmax cs + 1))
+      (drawMultiq sty.pad (gateText name lab) ts (some cs)).top.length true ctl
+      (mem_pyRange.mpr ⟨by omega, by omega⟩) (hnotT ctl habove)
+    refine ⟨?_, ?_, ?_, ?_⟩
+    · exact hcells _ (hin _ hg) 1 _ _ (by simpa [Seg.row, hctl] using gm)
+    · exact hcells _ (hin _ hg) 2 _ _ (by simpa [Seg.row] using gb (by simp))
+    · have := hcells _ (List.mem_append_left _ (List.mem_append_left _ hgT)) 0 _ '┴'
+        (by simp only [Seg.row]; rw [hgTtop]; exact mT hgt)
+      exact this
+    · intro w hw1 hw2
+      obtain ⟨g', hg', gm', gt', gb'⟩ := @updQbridge_mem ts cs (pyRange (lmin ts) (lmax cs + 1))
+        (drawMultiq sty.pad (gateText name lab) ts (some cs)).top.length true w
+        (mem_pyRange.mpr ⟨by omega, by omega⟩) (hnotT w hw1)
+      have hnend : ¬ (w ∈ cs ∧ (some w = (pyRange (lmin ts) (lmax cs + 1)).head? ∨
+          some w = (pyRange (lmin ts) (lmax cs + 1)).getLast?) ∧ true = true) := by
+        rw [hhead, hlast]
+        rintro ⟨_, h' | h', _⟩
+        · have := Option.some.inj h'; omega
+        · have := Option.some.inj h'; omega
+      refine ⟨?_, ?_, ?_⟩
+      · exact hcells _ (hin _ hg') 0 _ _ (by simpa [Seg.row] using gt' hnend)
+      · exact hcells _ (hin _ hg') 2 _ _ (by simpa [Seg.row] using gb' (by simp))
+      · by_cases hwc : w ∈ cs
+        · exact Or.inr (hcells _ (hin _ hg') 1 _ _ (by simpa [Seg.row, hwc] using gm'))
+        · exact Or.inl (hcells _ (hin _ hg') 1 _ _ (by simpa [Seg.row, hwc] using gm'))
+  · -- control below the box
+    intro hbelow
+    have hcmin : lmin cs ≤ ctl := lmin_le hctl
+    have hlt : lmin cs < lmax ts := by omega
+    have hin : ∀ a, a ∈ updQbridge ts cs (pyRange (lmin cs) (lmax ts + 1))
+        (drawMultiq sty.pad (gateText name lab) ts (some cs)).top.length false →
+        a ∈ updTargetMultiq ts (pyRange (lmin ts) (lmax ts + 1)) (drawMultiq sty.pad (gateText name lab) ts (some cs)) ++
+          (if lmax cs > lmin ts then updQbridge ts cs (pyRange (lmin ts) (lmax cs + 1))
+            (drawMultiq sty.pad (gateText name lab) ts (some cs)).top.length true else []) ++
+          (if lmin cs < lmax ts then updQbridge ts cs (pyRange (lmin cs) (lmax ts + 1))
+            (drawMultiq sty.pad (gateText name lab) ts (some cs)).top.length false else []) := by
+      intro a ha
+      rw [if_pos hlt]
+      exact List.mem_append_right _ ha
+    have hnotT : ∀ w, w < lmin ts → w ∉ ts := fun w hw hmem => by have := lmin_le hmem; omega
+    have hhead : (pyRange (lmin cs) (lmax ts + 1)).head? = some (lmin cs) := pyRange_head? (by omega)
+    have hlast : (pyRange (lmin cs) (lmax ts + 1)).getLast? = some (lmax ts) := by
+      rw [pyRange_getLast? (by omega)]; rfl
+    obtain ⟨g, hg, gm, gt, _⟩ := @updQbridge_mem ts cs (pyRange (lmin cs) (lmax ts + 1))
+      (drawMultiq sty.pad (gateText name lab) ts (some cs)).top.length false ctl
+      (mem_pyRange.mpr ⟨by omega, by omega⟩) (hnotT ctl hbelow)
+    refine ⟨?_, ?_, ?_, ?_⟩
+    · exact hcells _ (hin _ hg) 1 _ _ (by simpa [Seg.row, hctl] using gm)
+    · exact hcells _ (hin _ hg) 0 _ _ (by simpa [Seg.row] using gt (by simp))
+    · have := hcells _ (List.mem_append_left _ (List.mem_append_left _ hgB)) 2 _ '┬'
+        (by simp only [Seg.row]; rw [hgBbot]; exact mB hlt)
+      exact this
+    · intro w hw1 hw2
+      obtain ⟨g', hg', gm', gt', gb'⟩ := @updQbridge_mem ts cs (pyRange (lmin cs) (lmax ts + 1))
+        (drawMultiq sty.pad (gateText name lab) ts (some cs)).top.length false w
+        (mem_pyRange.mpr ⟨by omega, by omega⟩) (hnotT w hw2)
+      have hnend : ¬ (w ∈ cs ∧ (some w = (pyRange (lmin cs) (lmax ts + 1)).head? ∨
+          some w = (pyRange (lmin cs) (lmax ts + 1)).getLast?) ∧ false = false) := by
+        rw [hhead, hlast]
+        rintro ⟨_, h' | h', _⟩
+        · have := Option.some.inj h'; omega
+        · have := Option.some.inj h'; omega
+      refine ⟨?_, ?_, ?_⟩
+      · exact hcells _ (hin _ hg') 0 _ _ (by simpa [Seg.row] using gt' (by simp))
+      · exact hcells _ (hin _ hg') 2 _ _ (by simpa [Seg.row] using gb' hnend)
+      · by_cases hwc : w ∈ cs
+        · exact Or.inr (hcells _ (hin _ hg') 1 _ _ (by simpa [Seg.row, hwc] using gm'))
+        · exact Or.inl (hcells _ (hin _ hg') 1 _ _ (by simpa [Seg.row, hwc] using gm'))
+
+-- non-vacuity: the TOFFOLI of `exCirc` (target 1, controls 0 and 3) meets every hypothesis
+example : circOk exStyle exCirc = true ∧ (∃ st, layoutSt exStyle exCirc = .ok st) ∧
+    exCirc.ops = [] ++ .gate ['T','O','F','F','O','L','I'] none [1] (some [0, 3]) :: exCirc.ops.tail ∧
+    ['T','O','F','F','O','L','I'] ≠ swapName ∧ ([1] ++ [0, 3]).Nodup := by
+  refine ⟨by decide +kernel, ⟨_, rfl⟩, rfl, by decide, by decide⟩
+
+/-- **SWAP links reach.**  The two crosses `╳` of a SWAP sit in one column on the middle rows of
+its two wires (`lmin ts`, `lmax ts`) and are joined by `│` on every row between them. -/
+theorem links_reach_swap (sty : Style) (c : Circ) (st : St) (hc : circOk sty c = true)
+    (h : layoutSt sty c = .ok st) (pre post : List Op) (lab : Option Str) (ts : List Nat) (cs : Option (List Nat))
+    (hops : c.ops = pre ++ .gate swapName lab ts cs :: post) (h1 : ¬ (ts.length = 1 ∧ cs = none)) :
+    ∃ col, cell st (lmin ts) 1 col = some '╳' ∧ cell st (lmax ts) 1 col = some '╳' ∧
+      cell st (lmax ts) 2 col = some '│' ∧ (lmin ts < lmax ts → cell st (lmin ts) 0 col = some '│') ∧
+      ∀ w, lmin ts < w → w < lmax ts →
+        cell st w 0 col = some '│' ∧ cell st w 1 col = some '│' ∧ cell st w 2 col = some '│' := by
+  obtain ⟨xs, pl, hpl, hcells⟩ := piece_in_picture hc h hops
+  have hop : opOk c.N (.gate swapName lab ts cs) = true := by
+    simp only [circOk, Bool.and_eq_true, List.all_eq_true] at hc
+    exact hc.2 _ (by rw [hops]; simp)
+  have hne : ts ≠ [] := by
+    simp only [opOk, Bool.and_eq_true] at hop
+    intro h'; simp [h'] at hop
+  rw [plan_swap _ _ _ _ _ _ h1 hne] at hpl
+  cases hpl
+  simp only [] at hcells
+  have hmm : lmin ts ≤ lmax ts := lmin_le (lmax_mem hne)
+  refine ⟨xs + (4 * sty.pad + 1) / 2, ?_, ?_, ?_, ?_, ?_⟩
+  · obtain ⟨g, hg, gm, _, _⟩ := @updSwap_mem sty.pad (lmin ts) (lmax ts) (lmin ts) hmm ⟨Nat.le_refl _, hmm⟩
+    exact hcells _ hg 1 _ _ (by simpa [Seg.row] using gm)
+  · obtain ⟨g, hg, gm, _, _⟩ := @updSwap_mem sty.pad (lmin ts) (lmax ts) (lmax ts) hmm ⟨hmm, Nat.le_refl _⟩
+    exact hcells _ hg 1 _ _ (by simpa [Seg.row] using gm)
+  · obtain ⟨g, hg, _, _, gb⟩ := @updSwap_mem sty.pad (lmin ts) (lmax ts) (lmax ts) hmm ⟨hmm, Nat.le_refl _⟩
+    exact hcells _ hg 2 _ _ (by simpa [Seg.row] using gb (Or.inl rfl))
+  · intro hlt
+    obtain ⟨g, hg, _, gt, _⟩ := @updSwap_mem sty.pad (lmin ts) (lmax ts) (lmin ts) hmm ⟨Nat.le_refl _, hmm⟩
+    exact hcells _ hg 0 _ _ (by simpa [Seg.row] using gt (by omega))
+  · intro w hw1 hw2
+    obtain ⟨g, hg, gm, gt, gb⟩ := @updSwap_mem sty.pad (lmin ts) (lmax ts) w hmm ⟨by omega, by omega⟩
+    have hne1 : ¬ (w = lmin ts ∨ w = lmax ts) := by omega
+    refine ⟨?_, ?_, ?_⟩
+    · exact hcells _ hg 0 _ _ (by simpa [Seg.row] using gt (by omega))
+    · exact hcells _ hg 1 _ _ (by simpa [Seg.row, hne1] using gm)
+    · exact hcells _ hg 2 _ _ (by simpa [Seg.row] using gb (Or.inr (by omega)))
+
+example : exCirc.ops = [.gate ['T','O','F','F','O','L','I'] none [1] (some [0, 3])] ++ .gate swapName none [0, 2] none :: (exCirc.ops.drop 2) ∧
+    ¬ (([0, 2] : List Nat).length = 1 ∧ (none : Option (List Nat)) = none) ∧ lmin [0, 2] = 0 ∧ lmax [0, 2] = 2 := by
+  refine ⟨rfl, by decide, rfl, rfl⟩
+
+/-- **Measurement links reach.**  Below the box `M` of a measurement of qubit `t0` into bit `s`
+(one column `col`): `╥` on the bottom row of `t0`, `║` on all rows of the qubits below `t0` and of
+the classical wires drawn above bit `s`, `║` on the top row of bit `s` and the connector `╩` on
+the classical wire `s` itself. -/
+theorem links_reach_measure (sty : Style) (c : Circ) (st : St) (hc : circOk sty c = true)
+    (h : layoutSt sty c = .ok st) (pre post : List Op) (t0 s : Nat)
+    (hops : c.ops = pre ++ .meas [t0] s :: post) :
+    ∃ col, cell st t0 1 col = some 'M' ∧ cell st t0 2 col = some '╥' ∧
+      (∀ w, w < t0 → cell st w 0 col = some '║' ∧ cell st w 1 col = some '║' ∧ cell st w 2 col = some '║') ∧
+      (∀ w, c.N + s < w → w < c.N + c.C →
+        cell st w 0 col = some '║' ∧ cell st w 1 col = some '║' ∧ cell st w 2 col = some '║') ∧
+      (s < c.C → cell st (c.N + s) 0 col = some '║' ∧ cell st (c.N + s) 1 col = some '╩') := by
+  obtain ⟨xs, pl, hpl, hcells⟩ := piece_in_picture hc h hops
+  have hop : opOk c.N (.meas [t0] s) = true := by
+    simp only [circOk, Bool.and_eq_true, List.all_eq_true] at hc
+    exact hc.2 _ (by rw [hops]; simp)
+  have ht0 : t0 < c.N := by simpa [opOk] using hop
+  rw [plan_meas] at hpl
+  cases hpl
+  simp only [] at hcells
+  obtain ⟨gM, gB⟩ := drawMeas_glyphs sty.pad c.N t0 s (by omega)
+  have hbox : (t0, drawMeas sty.pad c.N t0 s) ∈ updSingleq [t0] (drawMeas sty.pad c.N t0 s) ++
+      updCbridge c.N t0 s (pyRange 0 (t0 + 1) ++ pyRange (s + c.N) (c.N + c.C)) (drawMeas sty.pad c.N t0 s).top.length :=
+    List.mem_append_left _ (by simp [updSingleq])
+  have hbr : ∀ w, w ∈ pyRange 0 (t0 + 1) ++ pyRange (s + c.N) (c.N + c.C) → w ≠ t0 →
+      ∃ g, (w, g) ∈ updSingleq [t0] (drawMeas sty.pad c.N t0 s) ++
+        updCbridge c.N t0 s (pyRange 0 (t0 + 1) ++ pyRange (s + c.N) (c.N + c.C)) (drawMeas sty.pad c.N t0 s).top.length ∧
+      g.top[(drawMeas sty.pad c.N t0 s).top.length / 2]? = some '║' ∧
+      g.mid[(drawMeas sty.pad c.N t0 s).top.length / 2]? = some (if w = c.N + s then '╩' else '║') ∧
+      (w ≠ c.N + s → g.bot[(drawMeas sty.pad c.N t0 s).top.length / 2]? = some '║') := by
+    intro w hw hne
+    obtain ⟨g, hg, a, b, d⟩ := @updCbridge_mem c.N t0 s _ (drawMeas sty.pad c.N t0 s).top.length w hw hne
+    exact ⟨g, List.mem_append_right _ hg, a, b, d⟩
+  refine ⟨xs + (drawMeas sty.pad c.N t0 s).top.length / 2, ?_, ?_, ?_, ?_, ?_⟩
+  · exact hcells _ hbox 1 _ _ (by simpa [Seg.row] using gM)
+  · exact hcells _ hbox 2 _ _ (by simpa [Seg.row] using gB)
+  · intro w hw
+    obtain ⟨g, hg, a, b, d⟩ := hbr w (List.mem_append_left _ (mem_pyRange.mpr ⟨by omega, by omega⟩)) (by omega)
+    have hns : w ≠ c.N + s := by omega
+    exact ⟨hcells _ hg 0 _ _ (by simpa [Seg.row] using a), hcells _ hg 1 _ _ (by simpa [Seg.row, hns] using b),
+      hcells _ hg 2 _ _ (by simpa [Seg.row] using d hns)⟩
+  · intro w hw1 hw2
+    obtain ⟨g, hg, a, b, d⟩ := hbr w (List.mem_append_right _ (mem_pyRange.mpr ⟨by omega, by omega⟩)) (by omega)
+    have hns : w ≠ c.N + s := by omega
+    exact ⟨hcells _ hg 0 _ _ (by simpa [Seg.row] using a), hcells _ hg 1 _ _ (by simpa [Seg.row, hns] using b),
+      hcells _ hg 2 _ _ (by simpa [Seg.row] using d hns)⟩
+  · intro hs
+    obtain ⟨g, hg, a, b, _⟩ := hbr (c.N + s) (List.mem_append_right _ (mem_pyRange.mpr ⟨by omega, by omega⟩)) (by omega)
+    exact ⟨hcells _ hg 0 _ _ (by simpa [Seg.row] using a), hcells _ hg 1 _ _ (by simpa [Seg.row] using b)⟩
+
+example : exCirc.ops = exCirc.ops.take 2 ++ .meas [2] 1 :: exCirc.ops.drop 3 ∧ 1 < exCirc.C := ⟨rfl, by decide⟩
 
 end QipVerif.C20
